@@ -116,6 +116,10 @@ class C13(Case):
                 wq = an(entity(W(From(wobjs), 1)))
             list(wq.evaluate())
         members = self._members(mk, n, cls_name, sp.get("mixed", False))
+        if sp.get("selfref"):
+            # field c holds a (symbolic) reference to a member of the SAME domain - possibly the object itself
+            for i, m in enumerate(members):
+                m.c = mk.ref("m%d.cref" % i, members)
         consts = self._consts(mk, sp)
         # instances of T (and of a subclass) that exist in the registry but are NOT members of the supplied domain: a
         # variable over a supplied domain must never range over them, even when the domain holds no instance of T at all
@@ -128,6 +132,8 @@ class C13(Case):
         data = dict(members=members, consts=consts, holders=holders)
 
         def val(v):
+            if v[0] == "member":
+                return members[v[1]]
             return v[1] if v[0] == "lit" else consts[v[1]]
 
         def idx(res, pool):
@@ -192,12 +198,15 @@ class C13(Case):
             given[names[i]] = v
 
         def val(v):
+            if v[0] == "member":
+                return members[v[1]]
             return v[1] if v[0] == "lit" else consts[v[1]]
 
         def member_ok(m):
             if not isinstance(m, T):
                 return alg.const(False)
-            return alg.and_(*[alg.cmp("eq", getattr(m, f), val(v)) for f, v in given.items()])
+            return alg.and_(*[alg.same(getattr(m, f), val(v), members) if v[0] == "member" else alg.cmp("eq", getattr(m, f), val(v))
+                              for f, v in given.items()])
         obs = []
         for form, res in outcome.items():
             if sp.get("nested"):
@@ -256,6 +265,11 @@ def shapes(tier, seed):
         out.append(dict(cls=cls, warm=warm, pos=[S(0)], n=n))
         out.append(dict(cls=cls, warm=warm, pos=[S(0), S(1)], kw={FIELDS[cls][-1]: S(9)}, n=n))
         out.append(dict(cls=cls, warm=warm, kw={"a": S(0)}, n=n))
+    # a field of the class's own type: the value asked for is a member of the same domain (possibly the candidate itself)
+    for kw in ({"c": ["member", 0]}, {"c": ["member", 1], "a": S(0)}):
+        out.append(dict(cls="P3", kw=kw, n=n, selfref=True))
+        out.append(dict(cls="P3", kw=kw, n=n, selfref=True, domain="tuple"))
+    out.append(dict(cls="P3", pos=[S(0), S(1), ["member", 0]], n=n, selfref=True))
     # nested predicate-form term as a field value
     for kw in ({"a": S(0)}, {"a": S(0), "b": S(1)}, {}):
         out.append(dict(cls="P3", kw=kw, n=2, nested=True))
